@@ -34,7 +34,8 @@ def gen_records(rng, big=False):
         if big and rng.random() < 0.2:
             sz = rng.choice([4095, 4096, 4097, 8191, 8192, 8193, 65535])
         data = pkt.rand_bytes(rng, sz) if sz < 200 else bytes((i * 31 + k) & 0xFF for i in range(sz))
-        wire = rng.choice([None, None, sz + rng.randint(0, 2000)])
+        # the wire length is whatever the file says: usually >= the captured length, but 0 or less than it occur in the wild
+        wire = rng.choice([None, None, sz + rng.randint(0, 2000), 0, max(0, sz - rng.randint(1, 10)), (1 << 32) - 1])
         recs.append((rng.getrandbits(32), rng.getrandbits(32) if rng.random() < 0.5 else rng.randrange(1000000), data, None, wire))
     return recs
 
@@ -270,6 +271,62 @@ def run(chk):
                     continue
                 rc = [rec_canon(x) for x in recs[:good]]
                 judge_partial(chk, cls + "|" + kind, rc, ops, obs, kind)
+        # ---- the same truncations arriving as a stream on stdin (pcap_stream, and filter mode), through the real binary
+        script_next = os.path.join(work, "sn.p2")
+        script_all = os.path.join(work, "sa.p2")
+        script_flt = os.path.join(work, "sf.p2")
+        with open(script_next, "w") as f:
+            f.write("let s = pcap_stream(stdin);\nif is_error(s) { puts(\"OPEN-ERROR\"); } else {\n  let n = 0;\n  loop { let p = pcap_read_next(s); if p == null || is_error(p) { break; } "
+                    "puts(p.sec, \" \", p.caplen, \" \", p.wirelen, \" \", len(p.payload)); n = n + 1; }\n  puts(\"N \", n);\n}\n")
+        with open(script_all, "w") as f:
+            f.write("let s = pcap_stream(stdin);\nif is_error(s) { puts(\"OPEN-ERROR\"); } else {\n  let a = pcap_read_all(s);\n  if is_error(a) { puts(\"ALL-ERROR\"); } else {\n"
+                    "    let i = 0; while i < len(a) { puts(a[i].sec, \" \", a[i].caplen, \" \", a[i].wirelen, \" \", len(a[i].payload)); i = i + 1; }\n    puts(\"N \", len(a));\n  }\n}\n")
+        with open(script_flt, "w") as f:
+            f.write("@ true\n")
+        for i in range(2 if quick else 40):
+            recs = gen_records(rng)[:4]
+            if not recs:
+                continue
+            data = pkt.pcap_file(recs, magic=rng.choice([pkt.MAGIC_US, pkt.MAGIC_NS]))
+            bounds = [24]
+            for r_ in recs:
+                bounds.append(bounds[-1] + 16 + len(r_[2]))
+            for cut in range(len(data) + 1):
+                k = sum(1 for b in bounds[1:] if b <= cut)
+                lines = ["%d %d %d %d" % (r_[0], len(r_[2]), r_[4] if r_[4] is not None else len(r_[2]), len(r_[2])) for r_ in recs[:k]]
+                for mode, script in (("next", script_next), ("all", script_all), ("filter", script_flt)):
+                    if quick and mode != "next" and cut % 3:
+                        continue
+                    rr = core.run_binary([script], stdin_data=data[:cut], release=(cut % 2 == 1), timeout=30)
+                    if rr["timeout"]:
+                        chk.inconc("timeout (stdin stream)")
+                        continue
+                    chk.observed(("stdin-stream", mode, min(k, 3), cut < 24))
+                    if core.crashed(rr):
+                        chk.violation("stream-crash|%s" % mode, "a pcap stream cut at byte %d crashes the interpreter: %s" % (cut, rr["err"][-200:]), {"stream_hex": data[:cut].hex()[:400]})
+                        continue
+                    out = rr["out"]
+                    if mode == "filter":
+                        if cut < 24:
+                            continue      # no valid stream at all: only "no crash"
+                        h2, recs2, rest = pkt.parse_pcap(out)
+                        got = [(x[0], x[2], x[3], len(x[4])) for x in recs2] if h2 else None
+                        want = [(r_[0], len(r_[2]), r_[4] if r_[4] is not None else len(r_[2]), len(r_[2])) for r_ in recs[:k]]
+                        if got != want:
+                            chk.violation("stream|filter|cut-%s" % ("in-body" if cut not in bounds else "at-boundary"),
+                                          "filter mode on a stream cut at byte %d (after %d complete records) writes %s records, expected %d" % (
+                                              cut, k, len(got) if got is not None else None, k), {"stream_hex": data[:cut].hex()[:400]})
+                        continue
+                    text = out.decode("utf-8", "replace").splitlines()
+                    if cut < 24:
+                        if text != ["OPEN-ERROR"]:
+                            chk.violation("stream|short-global-header", "a stream of %d bytes is opened without an error object: %s" % (cut, text[:3]), {"cut": cut})
+                        continue
+                    ok = text == lines + ["N %d" % k] or (mode == "all" and text == ["ALL-ERROR"] and cut not in bounds)
+                    if not ok:
+                        chk.violation("stream|%s|cut-%s" % (mode, "in-body" if cut not in bounds else "at-boundary"),
+                                      "pcap_stream(stdin) cut at byte %d (after %d complete records): printed %s, expected %s" % (cut, k, text[-3:], (lines + ["N %d" % k])[-3:]),
+                                      {"stream_hex": data[:cut].hex()[:400], "mode": mode})
     finally:
         shutil.rmtree(work, ignore_errors=True)
 
